@@ -156,6 +156,12 @@ pub fn check(c: &Case, seams_open: bool) -> CheckResult {
     }
     o.class_if(sharp && hw_dev >= 1.5, "join-visible");
     o.class_if(reversal, "reversal");
+    o.class_if(c.style.join == 0 && c.style.miter.0 >= 60.0 && hw_dev >= 0.5 && polys.iter().any(|p| p.pts.windows(3).any(|q| {
+        let (ax, ay) = (q[1].0 - q[0].0, q[1].1 - q[0].1);
+        let (bx, by) = (q[2].0 - q[1].0, q[2].1 - q[1].1);
+        let (la, lb) = (ax.hypot(ay), bx.hypot(by));
+        la > 0.5 && lb > 0.5 && (ax * bx + ay * by) < 0.0 && (ax * by - ay * bx).abs() / (la * lb) < 0.0175 && (ax * by - ay * bx).abs() / (la * lb) > 3.0e-4
+    })), "near-reversal-under-a-miter-limit-of-60-or-more");
     {
         // an exactly right-angled corner (axis-parallel segments) under a miter limit between 1 and sqrt 2
         let mut right = false;
@@ -393,6 +399,23 @@ pub fn strategy() -> BoxedStrategy<Case> {
             // has ratio sqrt 2: bevelled there, mitred just above)
             let rectilinear = !path.has_curves() && path.points().windows(2).all(|p| p[0].0 == p[1].0 || p[0].1 == p[1].1) && path.ops.iter().filter(|o| matches!(o, POp::M(..))).count() == 1;
             let miter = if rectilinear && join == 0 && (w + h) % 2 == 0 { [1.1f32, 1.2, 1.3, 1.4][((w * 3 + h) % 4) as usize] } else { miter };
+            // polylines with a vertex within a degree of a reversal (but not on it) and a miter join: half of them
+            // under a limit of 60..400, where the miter (hundreds of half-widths long) is still required
+            let near_reversal = !path.has_curves() && {
+                let pts = path.points();
+                pts.windows(3).any(|p| {
+                    let (ax, ay) = ((p[1].0 - p[0].0) as f64, (p[1].1 - p[0].1) as f64);
+                    let (bx, by) = ((p[2].0 - p[1].0) as f64, (p[2].1 - p[1].1) as f64);
+                    let (la, lb) = (ax.hypot(ay), bx.hypot(by));
+                    if la < 1.0 || lb < 1.0 {
+                        return false;
+                    }
+                    let cosang = (ax * bx + ay * by) / (la * lb);
+                    let sinang = (ax * by - ay * bx).abs() / (la * lb);
+                    cosang < 0.0 && sinang < 0.0175 && sinang > 3.0e-4
+                })
+            };
+            let miter = if near_reversal && join == 0 && (w + h) % 2 == 1 { [60.0f32, 200.0, 400.0, 200.0][((w + 3 * h) % 4) as usize] } else { miter };
             // curves: the half-width stays below 0.4 x the smallest radius of curvature (see stroke_path)
             if path.has_curves() && width > 0.0 {
                 let r = min_curvature_radius(&path);
@@ -535,6 +558,7 @@ pub fn property(ctx: &Ctx) -> Property {
             ("region", "xf:general", 0.1),
             ("region", "ctm-scale>=1000", 0.05),
             ("region", "evenodd-path-with-visible-join", 0.03),
+            ("region", "near-reversal-under-a-miter-limit-of-60-or-more", 0.003),
             ("region", "exact-right-angle-with-miter-limit-between-1-and-sqrt2", 0.003),
         ],
         panic_is_violation: false,
